@@ -1067,6 +1067,59 @@ func (g *gen) history(n int) []Op {
 	return ops
 }
 
+// tombstone-replay family: several series interleaved in ONE file, 2-4 range deletes with
+// different ranges (nested, overlapping, sharing one bound, disjoint) on different series, a
+// restart before any compaction, more writes
+func (g *gen) tombFamily() []Op {
+	var pts []Pt
+	for t := int64(1); t <= 8; t++ {
+		for _, sv := range tagvals {
+			p := Pt{M: "m0", S: sv, F: "i0", T: t}
+			p.V = g.value("i0")
+			pts = append(pts, p)
+			g.seen = append(g.seen, p)
+		}
+	}
+	ops := []Op{{K: "w", Pts: pts}, {K: "snap"}}
+	n := 2 + g.r.Intn(3)
+	var plo, phi int64 = 3, 5
+	first := g.r.Intn(len(tagvals))
+	for i := 0; i < n; i++ {
+		lo := int64(1 + g.r.Intn(8))
+		hi := lo + int64(g.r.Intn(int(9-lo)))
+		switch g.r.Intn(8) {
+		case 0:
+			lo = math.MinInt64
+		case 1:
+			hi = math.MaxInt64
+		}
+		if i > 0 {
+			switch g.r.Intn(5) {
+			case 0:
+				lo = plo
+				if hi < lo {
+					hi = lo
+				}
+			case 1:
+				hi = phi
+				if lo > hi {
+					lo = hi
+				}
+			case 2:
+				lo = math.MinInt64
+			}
+		}
+		sv := tagvals[(first+i)%len(tagvals)]
+		ops = append(ops, Op{K: "del", Series: []Ser{{"m0", sv}}, Lo: lo, Hi: hi})
+		plo, phi = lo, hi
+	}
+	if g.r.Chance(50) {
+		ops = append(ops, Op{K: "restart"})
+	}
+	ops = append(ops, g.write())
+	return ops
+}
+
 func (g *gen) ops2() []Op {
 	n := 1 + g.r.Intn(2)
 	var ops []Op
@@ -1203,6 +1256,31 @@ func designed(o *hx.Out) {
 	}
 }
 
+// tombstone replay at reopen: different ranges on different series of one file; a crash image
+// after every operation is reopened, written to and reopened again
+func designedTombs(o *hx.Out) {
+	var all []Pt
+	for t := int64(1); t <= 6; t++ {
+		for i, sv := range []string{"a", "b", "c"} {
+			all = append(all, ip("m0", sv, "i0", t, int64(100*(i+1))+t))
+		}
+	}
+	delS := func(sv string, lo, hi int64) Op { return Op{K: "del", Series: []Ser{{"m0", sv}}, Lo: lo, Hi: hi} }
+	w5 := Op{K: "w", Pts: []Pt{ip("m0", "a", "i0", 9, 909)}}
+	for _, dels := range [][]Op{
+		{delS("a", 2, 3), delS("b", 2, 5)},
+		{delS("a", math.MinInt64, 2), delS("b", math.MinInt64, 4), delS("c", 3, 4)},
+		{delS("a", 5, 6), delS("b", 1, 2), delS("c", 2, 6), delS("a", 1, 1)},
+	} {
+		ops := append([]Op{{K: "w", Pts: all}, {K: "snap"}}, dels...)
+		var vs []variant
+		for i := 2; i < len(ops); i++ {
+			vs = append(vs, variant{c1: Crash{At: i, Point: "after"}, ops2: []Op{w5}, c2: &Crash{At: 0, Point: "after"}})
+		}
+		runGroup(o, ops, vs, "designed")
+	}
+}
+
 func main() {
 	f := hx.ParseFlags()
 	o := hx.NewOut(f.OutDir)
@@ -1225,13 +1303,19 @@ func main() {
 		return
 	}
 	designed(o)
+	designedTombs(o)
 	r := hx.NewRand(f.Seed)
 	perHist := 14
 	emitted := 0
+	nhist := 0
 	for emitted < f.N {
 		g := &gen{r: r.Split()}
 		n := 4 + g.r.Intn(9)
 		ops := g.history(n)
+		if nhist%4 == 1 {
+			ops = g.tombFamily()
+		}
+		nhist++
 		vs := g.variants(ops, perHist, false)
 		runGroup(o, ops, vs, "gen")
 		emitted += 2 * len(vs)
